@@ -1367,7 +1367,7 @@ class mem(exp):
         for loc, v in self.mods:
             if loc._is_ptr:
                 loc = env(loc)
-            m[loc] = env(v)
+            m.__setitem__(loc, env(v), self.endian)
         res = m[mem(a, self.size, endian=self.endian)]
         res.sf = self.sf
         return res
